@@ -27,6 +27,8 @@ def tainted(t, memo):
     if isinstance(t, Op):
         if t.op == "call" and isinstance(t.args[0], Sym) and t.args[0].name == "model":
             r = True
+        elif t.op in ("size", "numel", "dim", "len", "attr_shape", "attr_dtype", "attr_device", "attr_ndim"):
+            r = False  # metadata of a tensor is not a function of its values: a sample COUNT may be rounded / converted freely
         else:
             r = any(tainted(a, memo) for a in args_of(t))
     memo[id(t)] = r
